@@ -5,9 +5,11 @@
      q <slots: comma separated name ids, '-' = free, "empty" = no slots> <func> <a1>
         func: get_null|get_m1|get_huge|find|delete|prop_m1|prop_null|add
         -> "<ret> <errno> <callbacks> <slots after> [<index>]"
+     g          -> the five generated flags this executable was extracted with (z0 port tests, add_common order)
      e <code>   -> errno class of category code
      r <registered handles, comma separated> <unknowns> <cells, comma separated>
-        (handles 0..5 valid, 5 = unknown parameter)
+        (handles 0..5 valid, 5 = unknown parameter; the order - validate first or register as you go -
+         is the one the translator found in vnacal_new_add_common.c)
         -> "<ret> <errno> <callbacks> <registered count> <unknowns> <measurements added>" *)
 (* conversions between OCaml/Zarith values and the extracted Coq datatypes (the shared glue.ml.inc
    also needs the rational types, which this extraction does not contain) *)
@@ -87,8 +89,13 @@ let () =
           let valid h = let v = z_of_coqz h in ZZ.sign v >= 0 && ZZ.leq v (ZZ.of_int 5) in
           let unknown h = ZZ.equal (z_of_coqz h) (ZZ.of_int 5) in
           let s0 = { n_registered = ints t.(1); n_unknowns = zi t.(2); n_measurements = Z0 } in
-          let (s1, o) = add_standard valid unknown s0 (ints t.(3)) in
+          let (s1, o) = add_standard_current valid unknown s0 (ints t.(3)) in
           Printf.printf "%s %d %s %s\n" (outcome_s o) (List.length s1.n_registered) (iz s1.n_unknowns) (iz s1.n_measurements)
+        | "g" ->
+          (* the facts taken from the C text that are baked into this executable *)
+          let b x = if x then "1" else "0" in
+          Printf.printf "%s%s%s%s%s\n" (b gen_get_z0_strict) (b gen_set_z0_strict) (b gen_get_fz0_strict)
+            (b gen_set_fz0_strict) (b gen_add_common_prevalidates)
         | "e" -> Printf.printf "%s\n" (errno_s (gen_errno_of_code (zi t.(1))))
         | _ -> failwith "unknown line"
       end
